@@ -355,6 +355,23 @@ func (o *oC01) OnIdle(k *Kernel) {
 			}
 		}
 	}
+	if o.r.hq != nil {
+		// what HQ handed out and the crawler received reaches the pipeline (whatever happened to a sibling sub-fetch)
+		var dropped []string
+		for _, c := range o.r.hq.snapshot() {
+			if c.Kind == "get" && c.Applied && !c.Lost && c.Fault != "reset-after" {
+				for _, u := range c.Out {
+					if o.t.taken[u.Value] == 0 && o.t.discarded[u.Value] == 0 {
+						dropped = append(dropped, u.Value)
+					}
+				}
+			}
+		}
+		if len(dropped) > 0 {
+			sort.Strings(dropped)
+			k.Violate("C01", "never-dropped", "handed-out-seed-never-reached-the-pipeline", fmt.Sprintf("crawl HQ handed these URLs out and the answers were delivered, but they never reached the reactor: %v", dropped))
+		}
+	}
 	var miss []string
 	for key, res := range o.r.sc.Site {
 		if void[key] {
